@@ -387,6 +387,16 @@ theorem set_metric_copies_needed_keys (s : MetricState) (a : ExtraArgs) (n : Nat
       (setMetric s .fixed a).1.args = { numStreams := some n } := by
   simp [setMetric, ha]
 
+/-- R9 / R14: the row bookkeeping of `_get_sub_channel` / `_get_tilde_channel` for ANY number of
+    users and antennas (in particular beyond 256 users): a row of the channel is selected iff its
+    user is among the requested ones — users are identified by the VALUE of their index —, the
+    tilde channel of user `k` consists of exactly the rows of the other users, `(K-1)·N` of them -/
+theorem rows_selected_by_user_value {K N : Nat} (users : List (Fin K)) (k : Fin K) (x : Fin (K * N)) :
+    (x ∈ subIdx users ↔ userOf x ∈ users) ∧ (x ∈ tildeIdx (N := N) k ↔ userOf x ≠ k) ∧
+    tildeIdx (N := N) k = subIdx (otherUsers k) ∧ (subIdx (N := N) users).length = users.length * N ∧
+    (tildeIdx (N := N) k).length = (K - 1) * N :=
+  ⟨Pf.mem_subIdx users x, Pf.mem_tildeIdx k x, rfl, Pf.length_subIdx users, Pf.length_tildeIdx k⟩
+
 end robustness
 
 end PyPhysim.C09
